@@ -203,7 +203,7 @@ def _register_dict_header(reg):
         loops={0: {"inv": ["len(result) == _i"], "types": {"result": "List[str]"}}},
     )
     reg.contract(
-        "werkzeug/http.py:parse_dict_header", prop=P, params={"value": "str"}, modifies=[],
+        "werkzeug/http.py:parse_dict_header", prop=P, params={"value": "str"}, modifies=[], returns="Dict[str, Optional[str]]",
         ensures=["True"], raises={},
         replay=_replay_dict_header,
         loops={0: {"inv": ["True"], "types": {"result": "Dict[str, Optional[str]]", "value": "str"}}},
